@@ -54,6 +54,8 @@ def begin_case():
     simmanager.reset()
     identity.install()
     _salt[0] = _salt[1] = 0
+    _ctimes.clear()
+    _ctime_n[0] = 0
     reset_process_globals()  # e.g. pipefunc._utils._cached_load, a process-wide lru_cache keyed by (path, mtime, size)
 
 
@@ -66,6 +68,17 @@ def step_cap_for(w, base=20000):
 
 
 _salt = [0, 0]  # [processes started in this case, salt of the latest one]
+# File change times are a clock too ("the oldest file" of a DiskCache): every file written below a scratch root gets a
+# strictly increasing virtual ctime that survives the simulated processes of one case.  Real ctimes on tmpfs have tick
+# granularity, so two files written within one tick tie or not depending on the real clock - found by the determinism
+# self-test (C09 part B, seed 77 index 137: the evicted file differed between two runs of the same tape).
+_ctimes: dict = {}
+_ctime_n = [0]
+
+
+def _stamp_ctime(path, existed):
+    _ctime_n[0] += 1
+    _ctimes[path] = 2_000_000_000_000_000_000 + _ctime_n[0]
 
 
 def new_sim(exec_tape, root=None, *, preempt=0.3, step_cap=20000, clock=False, fs_kwargs=None, log_events=False,
@@ -81,6 +94,8 @@ def new_sim(exec_tape, root=None, *, preempt=0.3, step_cap=20000, clock=False, f
         # file modification times come from a virtual coarse clock (0/1 tick per write): quick rewrites of a file
         # may share a timestamp, as on coarse-granularity file systems (only matters to code that reads mtimes)
         sim.fs.coarse_mtime = True
+        sim.fs.ctimes = _ctimes  # one mapping per case: a later simulated process sees the ctimes of an earlier one
+        sim.fs.on_open_write = _stamp_ctime  # (engines that choose ctimes themselves replace this hook)
     if clock:
         simclock.SimClock(sim)
     return sim
